@@ -670,6 +670,126 @@ theorem findStream_mem {s : St} {k : Nat} {st : Stream} (h : findStream s k = so
   obtain ⟨a, b⟩ := find?_pk_mem h
   exact ⟨a, by simpa using b⟩
 
+/-- the rows after `if mf: mf.delete()` of an accepted upload -/
+theorem dropOpt_spec {s : St} (c : Core0 s) (spk : Nat) (stem fn : String) (mf : Option MediaFile)
+    (hmf : s.files.find? (fun x => x.name == stem) = mf)
+    (hacc : uploadRefused s spk fn mf = false) :
+    ∀ s1 : St, s1 = dropOpt s mf →
+      Core0 s1 ∧ s1.streams = s.streams ∧ s1.mps = s.mps ∧ s1.periods = s.periods ∧ s1.adps = s.adps ∧
+      stem ∉ s1.files.map (·.name) ∧
+      (∀ g ∈ s1.files, g ∈ s.files) ∧ (∀ b ∈ s1.blobs, b ∈ s.blobs) ∧
+      (∀ f, mf = some f → (∀ g ∈ s1.files, g.pk ≠ f.pk) ∧ (∀ b ∈ s1.blobs, b.pk ≠ f.blob) ∧
+             f.stream = spk ∧ f.name = stem ∧ f ∈ s.files) ∧
+      (∀ g ∈ s.files, (∀ f, mf = some f → g.pk ≠ f.pk) → g ∈ s1.files) := by
+  simp only [uploadRefused, Bool.or_eq_false_iff] at hacc
+  obtain ⟨hforeign, htaken⟩ := hacc
+  intro s1 e
+  cases mf with
+  | none =>
+    simp only [dropOpt] at e
+    subst e
+    refine ⟨c, rfl, rfl, rfl, rfl, ?_, fun g hg => hg, fun b hb => hb, by simp, fun g hg _ => hg⟩
+    intro h
+    obtain ⟨g, hg, e⟩ := List.mem_map.mp h
+    have := List.find?_eq_none.mp hmf g hg
+    simp [e] at this
+  | some f =>
+    simp only [dropOpt] at e
+    subst e
+    obtain ⟨hfm, hfn⟩ := find?_pk_mem hmf
+    simp only [beq_iff_eq] at hfn
+    refine ⟨core0_dropFile c hfm, rfl, rfl, rfl, rfl, ?_, ?_, ?_, ?_, ?_⟩
+    · intro h
+      obtain ⟨g, hg, e⟩ := List.mem_map.mp h
+      simp only [dropFile, List.mem_filter, bne_iff_ne, ne_eq] at hg
+      have := inj_of_nodup_map (·.name) c.fileName hg.1 hfm (by simp [e, hfn])
+      subst this
+      exact hg.2 rfl
+    · intro g hg; exact (List.mem_filter.mp hg).1
+    · intro b hb; exact (List.mem_filter.mp hb).1
+    · intro f' hf'
+      simp only [Option.some.injEq] at hf'
+      subst hf'
+      refine ⟨?_, ?_, ?_, hfn, hfm⟩
+      · intro g hg
+        simp only [dropFile, List.mem_filter, bne_iff_ne, ne_eq] at hg
+        exact hg.2
+      · intro b hb
+        simp only [dropFile, List.mem_filter, bne_iff_ne, ne_eq] at hb
+        exact hb.2
+      · simpa using hforeign
+    · intro g hg hne
+      simp only [dropFile, List.mem_filter, bne_iff_ne, ne_eq]
+      exact ⟨hg, hne f rfl⟩
+
+/-- the blob table after the ownerless blob row of that file name is deleted: no
+remaining media file used it, and the file name is free -/
+theorem dropOrphan_spec {s : St} (c : Core0 s) (spk : Nat) (stem fn : String) (mf : Option MediaFile)
+    (hmf : s.files.find? (fun x => x.name == stem) = mf)
+    (hacc : uploadRefused s spk fn mf = false) (s1 : St) (hs1e : s1 = dropOpt s mf) :
+    ∀ blobs2 : List Blob, blobs2 = dropOrphan s1.blobs fn →
+      Core0 { s1 with blobs := blobs2 } ∧ fn ∉ blobs2.map (·.filename) ∧ (∀ b ∈ blobs2, b ∈ s1.blobs) := by
+  obtain ⟨c1, e1, e2, e3, e4, hn1, hf1, hb1, hmf1, hkeep⟩ := dropOpt_spec c spk stem fn mf hmf hacc s1 hs1e
+  simp only [uploadRefused, Bool.or_eq_false_iff] at hacc
+  obtain ⟨hforeign, htaken⟩ := hacc
+  intro blobs2 e
+  unfold dropOrphan at e
+  generalize horph : s1.blobs.find? (fun x => x.filename == fn) = orphan at e
+  cases orphan with
+  | none =>
+    subst e
+    refine ⟨c1.of_eq rfl rfl rfl rfl rfl rfl rfl rfl, ?_, fun b hb => hb⟩
+    intro h
+    obtain ⟨b, hb, e⟩ := List.mem_map.mp h
+    have := List.find?_eq_none.mp horph b hb
+    simp [e] at this
+  | some b =>
+    subst e
+    obtain ⟨hbm, hbn⟩ := find?_pk_mem horph
+    simp only [beq_iff_eq] at hbn
+    refine ⟨core0_dropBlob c1 b.pk ?_, ?_, fun b' hb' => (List.mem_filter.mp hb').1⟩
+    · -- no remaining media file owns `b`
+      intro h
+      obtain ⟨g, hg, hgb⟩ := List.mem_map.mp h
+      have hgs := hf1 g hg
+      have hbs := hb1 b hbm
+      -- `b` is the blob of that name in `s`
+      have hfind : ∃ b0, s.blobs.find? (fun x => x.filename == fn) = some b0 := by
+        cases hq : s.blobs.find? (fun x => x.filename == fn) with
+        | none =>
+          have := List.find?_eq_none.mp hq b hbs
+          simp [hbn] at this
+        | some b0 => exact ⟨b0, rfl⟩
+      obtain ⟨b0, hb0⟩ := hfind
+      obtain ⟨hb0m, hb0n⟩ := find?_pk_mem hb0
+      simp only [beq_iff_eq] at hb0n
+      have hbb : b0 = b := inj_of_nodup_map (·.filename) c.blobName hb0m hbs (by simp [hb0n, hbn])
+      subst hbb
+      -- its owner in `s` is `g`
+      have hown : ∃ o, s.files.find? (fun x => x.blob == b0.pk) = some o := by
+        cases hq : s.files.find? (fun x => x.blob == b0.pk) with
+        | none =>
+          have := List.find?_eq_none.mp hq g hgs
+          simp [hgb] at this
+        | some o => exact ⟨o, rfl⟩
+      obtain ⟨o, ho⟩ := hown
+      obtain ⟨hom, hob⟩ := find?_pk_mem ho
+      simp only [beq_iff_eq] at hob
+      have hog : o = g := inj_of_nodup_map (·.blob) c.fileBlobU hom hgs (by simp [hob, hgb])
+      subst hog
+      simp only [hb0, ho] at htaken
+      cases mf with
+      | none => simp at htaken
+      | some f =>
+        simp only [bne_eq_false_iff_eq] at htaken
+        exact (hmf1 f rfl).1 o hg htaken
+    · intro h
+      obtain ⟨b', hb', e⟩ := List.mem_map.mp h
+      simp only [List.mem_filter, bne_iff_ne, ne_eq] at hb'
+      have := inj_of_nodup_map (·.filename) c1.blobName hb'.1 hbm (by simp [e, hbn])
+      subst this
+      exact hb'.2 rfl
+
 theorem inv_uploadAccepted {s : St} (hs : Inv s) (st : Stream) (hstm : st ∈ s.streams)
     (stem suffix : String) (ct : Content) (mf : Option MediaFile)
     (hmf : s.files.find? (fun x => x.name == stem) = mf)
@@ -677,120 +797,13 @@ theorem inv_uploadAccepted {s : St} (hs : Inv s) (st : Stream) (hstm : st ∈ s.
     Inv (uploadAccepted s st stem suffix ct mf) := by
   have hspk : st.pk ∈ s.streams.map (·.pk) := List.mem_map.mpr ⟨st, hstm, rfl⟩
   obtain ⟨⟨c, ht⟩, u⟩ := hs
-  simp only [uploadRefused, Bool.or_eq_false_iff] at hacc
-  obtain ⟨hforeign, htaken⟩ := hacc
-  -- the rows after `mf.delete()`
-  have hs1 : ∀ s1 : St, s1 = dropOpt s mf →
-      Core0 s1 ∧ s1.streams = s.streams ∧ s1.mps = s.mps ∧ s1.periods = s.periods ∧ s1.adps = s.adps ∧
-      stem ∉ s1.files.map (·.name) ∧
-      (∀ g ∈ s1.files, g ∈ s.files) ∧ (∀ b ∈ s1.blobs, b ∈ s.blobs) ∧
-      (∀ f, mf = some f → (∀ g ∈ s1.files, g.pk ≠ f.pk) ∧ (∀ b ∈ s1.blobs, b.pk ≠ f.blob) ∧
-             f.stream = st.pk ∧ f.name = stem ∧ f ∈ s.files) ∧
-      (∀ g ∈ s.files, (∀ f, mf = some f → g.pk ≠ f.pk) → g ∈ s1.files) := by
-    intro s1 e
-    cases mf with
-    | none =>
-      simp only [dropOpt] at e
-      subst e
-      refine ⟨c, rfl, rfl, rfl, rfl, ?_, fun g hg => hg, fun b hb => hb, by simp, fun g hg _ => hg⟩
-      intro h
-      obtain ⟨g, hg, e⟩ := List.mem_map.mp h
-      have := List.find?_eq_none.mp hmf g hg
-      simp [e] at this
-    | some f =>
-      simp only [dropOpt] at e
-      subst e
-      obtain ⟨hfm, hfn⟩ := find?_pk_mem hmf
-      simp only [beq_iff_eq] at hfn
-      refine ⟨core0_dropFile c hfm, rfl, rfl, rfl, rfl, ?_, ?_, ?_, ?_, ?_⟩
-      · intro h
-        obtain ⟨g, hg, e⟩ := List.mem_map.mp h
-        simp only [dropFile, List.mem_filter, bne_iff_ne, ne_eq] at hg
-        have := inj_of_nodup_map (·.name) c.fileName hg.1 hfm (by simp [e, hfn])
-        subst this
-        exact hg.2 rfl
-      · intro g hg; exact (List.mem_filter.mp hg).1
-      · intro b hb; exact (List.mem_filter.mp hb).1
-      · intro f' hf'
-        simp only [Option.some.injEq] at hf'
-        subst hf'
-        refine ⟨?_, ?_, ?_, hfn, hfm⟩
-        · intro g hg
-          simp only [dropFile, List.mem_filter, bne_iff_ne, ne_eq] at hg
-          exact hg.2
-        · intro b hb
-          simp only [dropFile, List.mem_filter, bne_iff_ne, ne_eq] at hb
-          exact hb.2
-        · simpa using hforeign
-      · intro g hg hne
-        simp only [dropFile, List.mem_filter, bne_iff_ne, ne_eq]
-        exact ⟨hg, hne f rfl⟩
   unfold uploadAccepted
   simp only
   generalize hs1e : dropOpt s mf = s1
-  obtain ⟨c1, e1, e2, e3, e4, hn1, hf1, hb1, hmf1, hkeep⟩ := hs1 s1 hs1e.symm
-  -- the ownerless blob row
-  have hs2 : ∀ blobs2 : List Blob, blobs2 = dropOrphan s1.blobs (stem ++ suffix) →
-      Core0 { s1 with blobs := blobs2 } ∧ (stem ++ suffix) ∉ blobs2.map (·.filename) := by
-    intro blobs2 e
-    unfold dropOrphan at e
-    generalize horph : s1.blobs.find? (fun x => x.filename == stem ++ suffix) = orphan at e
-    cases orphan with
-    | none =>
-      subst e
-      refine ⟨c1.of_eq rfl rfl rfl rfl rfl rfl rfl rfl, ?_⟩
-      intro h
-      obtain ⟨b, hb, e⟩ := List.mem_map.mp h
-      have := List.find?_eq_none.mp horph b hb
-      simp [e] at this
-    | some b =>
-      subst e
-      obtain ⟨hbm, hbn⟩ := find?_pk_mem horph
-      simp only [beq_iff_eq] at hbn
-      refine ⟨core0_dropBlob c1 b.pk ?_, ?_⟩
-      · -- no remaining media file owns `b`
-        intro h
-        obtain ⟨g, hg, hgb⟩ := List.mem_map.mp h
-        have hgs := hf1 g hg
-        have hbs := hb1 b hbm
-        -- `b` is the blob of that name in `s`
-        have hfind : ∃ b0, s.blobs.find? (fun x => x.filename == stem ++ suffix) = some b0 := by
-          cases hq : s.blobs.find? (fun x => x.filename == stem ++ suffix) with
-          | none =>
-            have := List.find?_eq_none.mp hq b hbs
-            simp [hbn] at this
-          | some b0 => exact ⟨b0, rfl⟩
-        obtain ⟨b0, hb0⟩ := hfind
-        obtain ⟨hb0m, hb0n⟩ := find?_pk_mem hb0
-        simp only [beq_iff_eq] at hb0n
-        have hbb : b0 = b := inj_of_nodup_map (·.filename) c.blobName hb0m hbs (by simp [hb0n, hbn])
-        subst hbb
-        -- its owner in `s` is `g`
-        have hown : ∃ o, s.files.find? (fun x => x.blob == b0.pk) = some o := by
-          cases hq : s.files.find? (fun x => x.blob == b0.pk) with
-          | none =>
-            have := List.find?_eq_none.mp hq g hgs
-            simp [hgb] at this
-          | some o => exact ⟨o, rfl⟩
-        obtain ⟨o, ho⟩ := hown
-        obtain ⟨hom, hob⟩ := find?_pk_mem ho
-        simp only [beq_iff_eq] at hob
-        have hog : o = g := inj_of_nodup_map (·.blob) c.fileBlobU hom hgs (by simp [hob, hgb])
-        subst hog
-        simp only [hb0, ho] at htaken
-        cases mf with
-        | none => simp at htaken
-        | some f =>
-          simp only [bne_eq_false_iff_eq] at htaken
-          exact (hmf1 f rfl).1 o hg htaken
-      · intro h
-        obtain ⟨b', hb', e⟩ := List.mem_map.mp h
-        simp only [List.mem_filter, bne_iff_ne, ne_eq] at hb'
-        have := inj_of_nodup_map (·.filename) c1.blobName hb'.1 hbm (by simp [e, hbn])
-        subst this
-        exact hb'.2 rfl
+  obtain ⟨c1, e1, e2, e3, e4, hn1, hf1, hb1, hmf1, hkeep⟩ :=
+    dropOpt_spec c st.pk stem (stem ++ suffix) mf hmf hacc s1 hs1e.symm
   generalize hb2e : dropOrphan s1.blobs (stem ++ suffix) = blobs2
-  obtain ⟨c2, hfn2⟩ := hs2 blobs2 hb2e.symm
+  obtain ⟨c2, hfn2, _⟩ := dropOrphan_spec c st.pk stem (stem ++ suffix) mf hmf hacc s1 hs1e.symm blobs2 hb2e.symm
   have hspk1 : st.pk ∈ ({ s1 with blobs := blobs2 } : St).streams.map (fun x : Stream => x.pk) := by
     simp only [e1]; exact hspk
   have c3 := core0_addFile c2 stem (stem ++ suffix) st.pk hspk1 hn1 hfn2
@@ -1141,6 +1154,432 @@ theorem inv_editMps {s : St} (hs : Inv s) (urlName : String) (bodyPk : Option Na
         refine mid_processPeriods true _ ps _ [] hmid ?_ s2 hp
         simp only [hpk]
         exact List.mem_map.mpr ⟨m, findMps_mem hm, rfl⟩
+
+/-! ### blob files on disk -/
+
+/-- every media file has its blob *file*: the file named by its blob row exists in
+the directory of its stream -/
+def DiskOK (s : St) : Prop :=
+  ∀ f ∈ s.files, ∀ st ∈ s.streams, st.pk = f.stream → ∀ b ∈ s.blobs, b.pk = f.blob →
+    (onDisk s.disk st.dir b.filename).isSome = true
+
+theorem onDisk_isSome_iff (d : List DiskFile) (dir fn : String) :
+    (onDisk d dir fn).isSome = true ↔ ∃ x ∈ d, x.dir = dir ∧ x.filename = fn := by
+  unfold onDisk
+  rw [List.find?_isSome]
+  simp only [Bool.and_eq_true, beq_iff_eq]
+
+theorem onDisk_writeDisk_same (d : List DiskFile) (dir fn : String) (c : Content) :
+    (onDisk (writeDisk d dir fn c) dir fn).isSome = true := by
+  rw [onDisk_isSome_iff]
+  exact ⟨⟨dir, fn, c⟩, by simp [writeDisk], rfl, rfl⟩
+
+theorem onDisk_writeDisk_mono (d : List DiskFile) (dir fn : String) (c : Content) (dir' fn' : String)
+    (h : (onDisk d dir' fn').isSome = true) : (onDisk (writeDisk d dir fn c) dir' fn').isSome = true := by
+  rw [onDisk_isSome_iff] at h ⊢
+  obtain ⟨x, hx, e1, e2⟩ := h
+  by_cases hp : x.dir = dir ∧ x.filename = fn
+  · refine ⟨⟨dir, fn, c⟩, by simp [writeDisk], ?_, ?_⟩
+    · simp only; rw [← e1, hp.1]
+    · simp only; rw [← e2, hp.2]
+  · refine ⟨x, ?_, e1, e2⟩
+    simp only [writeDisk, rmDisk, List.mem_append, List.mem_filter, Bool.not_eq_true', Bool.and_eq_false_imp,
+      beq_iff_eq, List.mem_singleton]
+    left
+    refine ⟨hx, ?_⟩
+    intro hd
+    simp only [beq_eq_false_iff_ne, ne_eq]
+    intro hf
+    exact hp ⟨hd, hf⟩
+
+theorem onDisk_rmDisk_ne (d : List DiskFile) (dir fn dir' fn' : String) (hne : ¬ (dir' = dir ∧ fn' = fn))
+    (h : (onDisk d dir' fn').isSome = true) : (onDisk (rmDisk d dir fn) dir' fn').isSome = true := by
+  rw [onDisk_isSome_iff] at h ⊢
+  obtain ⟨x, hx, e1, e2⟩ := h
+  refine ⟨x, ?_, e1, e2⟩
+  simp only [rmDisk, List.mem_filter, Bool.not_eq_true', Bool.and_eq_false_imp, beq_iff_eq]
+  refine ⟨hx, ?_⟩
+  intro hd
+  simp only [beq_eq_false_iff_ne, ne_eq]
+  intro hf
+  exact hne ⟨e1 ▸ hd, e2 ▸ hf⟩
+
+/-- rows may disappear, be updated without touching the columns the disk layout
+depends on, a stream without media files may appear or change its directory, and
+files may be added to the disk -/
+theorem diskOK_mono {s s' : St} (h : DiskOK s)
+    (hf : ∀ f ∈ s'.files, ∃ g ∈ s.files, g.stream = f.stream ∧ g.blob = f.blob)
+    (hs : ∀ x ∈ s'.streams, (∃ y ∈ s.streams, y.pk = x.pk ∧ y.dir = x.dir) ∨
+                            (∀ f ∈ s'.files, f.stream ≠ x.pk))
+    (hb : ∀ b ∈ s'.blobs, b ∈ s.blobs)
+    (hd : ∀ dir fn, (onDisk s.disk dir fn).isSome = true → (onDisk s'.disk dir fn).isSome = true) :
+    DiskOK s' := by
+  intro f hfm x hx hxk b hbm hbk
+  obtain ⟨g, hg, e1, e2⟩ := hf f hfm
+  rcases hs x hx with ⟨y, hy, k1, k2⟩ | hno
+  · rw [← k2]
+    exact hd _ _ (h g hg y hy (by rw [k1, hxk, e1]) b (hb b hbm) (by rw [hbk, e2]))
+  · exact absurd hxk.symm (hno f hfm)
+
+theorem diskOK_init : DiskOK init := by
+  intro f hf; simp [init] at hf
+
+theorem diskOK_addStream {s : St} (hs : Inv s) (hd : DiskOK s) (dir title : String) :
+    DiskOK (addStream s dir title).1 := by
+  unfold addStream
+  split
+  · exact hd
+  · refine diskOK_mono hd ?_ ?_ ?_ ?_
+    · exact fun f hf => ⟨f, hf, rfl, rfl⟩
+    rotate_left
+    · exact fun b hb => hb
+    · exact fun _ _ h => h
+    intro x hx
+    simp only [List.mem_append, List.mem_singleton] at hx
+    rcases hx with hx | rfl
+    · exact Or.inl ⟨x, hx, rfl, rfl⟩
+    · right
+      intro f hf e
+      exact fresh_not_mem _ (e ▸ hs.1.fileStream f hf)
+
+theorem diskOK_commit {s s' : St} (hd : DiskOK s) (hd' : DiskOK s') : DiskOK (commit s s').1 := by
+  unfold commit; split
+  · exact hd'
+  · exact hd
+
+theorem diskOK_editStream {s : St} (hs : Inv s) (hd : DiskOK s) (spk : Nat) (dir title tref : String) :
+    DiskOK (editStream s spk dir title tref).1 := by
+  unfold editStream
+  split
+  · exact hd
+  · next st hst =>
+    obtain ⟨hstm, hstk⟩ := findStream_mem hst
+    have hupd : ∀ t : Option String,
+        DiskOK { s with streams := s.streams.map (fun x =>
+          if x.pk == spk then { x with dir := (if s.files.any (·.stream == spk) then st.dir else dir),
+                                       title := title, tref := t } else x) } := by
+      intro t
+      refine diskOK_mono hd ?_ ?_ ?_ ?_
+      · exact fun f hf => ⟨f, hf, rfl, rfl⟩
+      rotate_left
+      · exact fun b hb => hb
+      · exact fun _ _ h => h
+      intro x hx
+      obtain ⟨y, hy, rfl⟩ := List.mem_map.mp hx
+      by_cases hk : (y.pk == spk) = true
+      · simp only [hk, if_true]
+        by_cases hany : (s.files.any (·.stream == spk)) = true
+        · left
+          have : y = st := inj_of_nodup_map (·.pk) hs.1.streamPk hy hstm
+            (by rw [beq_iff_eq.mp hk, hstk])
+          subst this
+          exact ⟨y, hy, rfl, by simp [hany]⟩
+        · right
+          intro f hf e
+          apply hany
+          exact List.any_eq_true.mpr ⟨f, hf, by simp [e, beq_iff_eq.mp hk]⟩
+      · simp only [hk]
+        exact Or.inl ⟨y, hy, rfl, rfl⟩
+    simp only
+    split
+    · exact diskOK_commit hd (hupd _)
+    · split
+      · exact hd
+      · exact diskOK_commit hd (hupd _)
+
+theorem diskOK_delStream {s : St} (hd : DiskOK s) (spk : Nat) : DiskOK (delStream s spk).1 := by
+  unfold delStream
+  split
+  · exact hd
+  · unfold dropStream
+    exact diskOK_mono hd (fun f hf => ⟨f, (List.mem_filter.mp hf).1, rfl, rfl⟩)
+      (fun x hx => Or.inl ⟨x, (List.mem_filter.mp hx).1, rfl, rfl⟩)
+      (fun b hb => (List.mem_filter.mp hb).1) (fun _ _ h => h)
+
+theorem diskOK_delMedia {s : St} (hd : DiskOK s) (spk mfid : Nat) : DiskOK (delMedia s spk mfid).1 := by
+  unfold delMedia
+  split
+  · exact hd
+  · split
+    · exact hd
+    · unfold dropFile
+      refine diskOK_mono hd (fun f hf => ⟨f, (List.mem_filter.mp hf).1, rfl, rfl⟩) ?_
+        (fun b hb => (List.mem_filter.mp hb).1) (fun _ _ h => h)
+      intro x hx
+      obtain ⟨y, hy, rfl⟩ := List.mem_map.mp hx
+      left
+      refine ⟨y, hy, ?_, ?_⟩ <;> split <;> rfl
+
+theorem diskOK_keys {s : St} (hd : DiskOK s) (keys : List Key) (links : List (Nat × Nat)) :
+    DiskOK { s with keys := keys, links := links } :=
+  diskOK_mono hd (fun f hf => ⟨f, hf, rfl, rfl⟩) (fun x hx => Or.inl ⟨x, hx, rfl, rfl⟩)
+    (fun b hb => hb) (fun _ _ h => h)
+
+theorem diskOK_applyIndex {s : St} (hd : DiskOK s) (mfid : Nat) (ct : Content) :
+    DiskOK (applyIndex s mfid ct) := by
+  unfold applyIndex
+  refine diskOK_mono hd ?_ (fun x hx => Or.inl ⟨x, hx, rfl, rfl⟩) (fun b hb => hb) (fun _ _ h => h)
+  intro f hf
+  obtain ⟨g, hg, rfl⟩ := List.mem_map.mp hf
+  refine ⟨g, hg, ?_, ?_⟩ <;> split <;> rfl
+
+theorem diskOK_index {s : St} (hd : DiskOK s) (mfid : Nat) : DiskOK (index s mfid).1 := by
+  unfold index
+  split
+  · exact hd
+  · split
+    · exact hd
+    · split
+      · exact diskOK_applyIndex hd _ _
+      · exact hd
+
+theorem diskOK_uploadAccepted {s : St} (hs : Inv s) (hd : DiskOK s) (st : Stream) (hstm : st ∈ s.streams)
+    (stem suffix : String) (ct : Content) (mf : Option MediaFile)
+    (hmf : s.files.find? (fun x => x.name == stem) = mf)
+    (hacc : uploadRefused s st.pk (stem ++ suffix) mf = false) :
+    DiskOK (uploadAccepted s st stem suffix ct mf) := by
+  obtain ⟨⟨c, _⟩, _⟩ := hs
+  unfold uploadAccepted
+  simp only
+  generalize hs1e : dropOpt s mf = s1
+  obtain ⟨c1, e1, _, _, _, _, hf1, hb1, hmf1, _⟩ :=
+    dropOpt_spec c st.pk stem (stem ++ suffix) mf hmf hacc s1 hs1e.symm
+  generalize hb2e : dropOrphan s1.blobs (stem ++ suffix) = blobs2
+  obtain ⟨c2, hfn2, hb2⟩ := dropOrphan_spec c st.pk stem (stem ++ suffix) mf hmf hacc s1 hs1e.symm blobs2 hb2e.symm
+  have hfresh := fresh_not_mem (blobs2.map (fun x : Blob => x.pk))
+  intro g hg x hx hxk b hb hbk
+  simp only [e1] at hx
+  simp only [List.mem_append, List.mem_singleton] at hg hb
+  rcases hg with hg | rfl
+  · -- a media file that was there before and is not the replaced one
+    have hgb : g.blob ∈ blobs2.map (fun x : Blob => x.pk) := c2.fileBlob g hg
+    rcases hb with hb | rfl
+    · have hbs1 := hb2 b hb
+      have hbs := hb1 b hbs1
+      have hold := hd g (hf1 g hg) x hx hxk b hbs hbk
+      apply onDisk_writeDisk_mono
+      -- the two deletions do not concern this file
+      have hne2 : b.filename ≠ stem ++ suffix := fun e => hfn2 (List.mem_map.mpr ⟨b, hb, e⟩)
+      have h1 : (onDisk (diskAfterDrop s st mf) x.dir b.filename).isSome = true := by
+        cases mf with
+        | none => exact hold
+        | some f =>
+          simp only [diskAfterDrop]
+          split
+          · next bf hbf =>
+            obtain ⟨hbfm, hbfk⟩ := find?_pk_mem hbf
+            simp only [beq_iff_eq] at hbfk
+            apply onDisk_rmDisk_ne _ _ _ _ _ ?_ hold
+            rintro ⟨_, hfn⟩
+            have : b = bf := inj_of_nodup_map (·.filename) c.blobName hbs hbfm hfn
+            subst this
+            exact (hmf1 f rfl).2.1 b hbs1 hbfk
+          · exact hold
+      split
+      · exact onDisk_rmDisk_ne _ _ _ _ _ (fun h => hne2 h.2) h1
+      · exact h1
+    · simp only at hbk
+      rw [← hbk] at hgb
+      exact absurd hgb hfresh
+  · -- the new media file
+    simp only at hxk hbk
+    have hxs : x = st := inj_of_nodup_map (·.pk) c.streamPk hx hstm hxk
+    subst hxs
+    rcases hb with hb | rfl
+    · exact absurd (List.mem_map.mpr ⟨b, hb, hbk⟩) hfresh
+    · exact onDisk_writeDisk_same _ _ _ _
+
+theorem diskOK_upload {s : St} (hs : Inv s) (hd : DiskOK s) (spk : Nat) (stem suffix : String) (ct : Content) :
+    DiskOK (upload s spk stem suffix ct).1 := by
+  unfold upload
+  split
+  · exact hd
+  · next st hst =>
+    obtain ⟨hstm, hstk⟩ := findStream_mem hst
+    subst hstk
+    simp only
+    split
+    · exact hd
+    · next hacc =>
+      exact diskOK_uploadAccepted hs hd st hstm stem suffix ct _ rfl (by simpa using hacc)
+
+theorem blobOnDisk_spec {s : St} {f : MediaFile} {st : Stream} {b : Blob} {d : DiskFile}
+    (h : blobOnDisk s f = some (st, b, d)) : st ∈ s.streams ∧ st.pk = f.stream := by
+  unfold blobOnDisk at h
+  split at h
+  · simp at h
+  · next st' hst' =>
+    split at h
+    · simp at h
+    · split at h
+      · simp at h
+      · simp only [Option.some.injEq, Prod.mk.injEq] at h
+        obtain ⟨rfl, _, _⟩ := h
+        exact findStream_mem hst'
+
+theorem diskOK_disk {s : St} (hd : DiskOK s) (dir fn : String) (c : Content) :
+    DiskOK { s with disk := writeDisk s.disk dir fn c } :=
+  diskOK_mono hd (fun f hf => ⟨f, hf, rfl, rfl⟩) (fun x hx => Or.inl ⟨x, hx, rfl, rfl⟩)
+    (fun b hb => hb) (fun _ _ h => onDisk_writeDisk_mono _ _ _ _ _ _ h)
+
+theorem diskOK_editMediaApply {s : St} (hs : Inv s) (hd : DiskOK s) {f : MediaFile} (hf : f ∈ s.files)
+    {st : Stream} (hstm : st ∈ s.streams) (hstk : st.pk = f.stream) (nn : String) (ct : Content) :
+    DiskOK { editMediaApply s f nn ct with disk := writeDisk s.disk st.dir nn ct } := by
+  obtain ⟨⟨c, _⟩, _⟩ := hs
+  have hfr := fresh_not_mem (s.blobs.map (fun x : Blob => x.pk))
+  unfold editMediaApply applyIndex
+  intro g hg x hx hxk b hb hbk
+  simp only [List.mem_map] at hg
+  obtain ⟨g1, hg1, rfl⟩ := hg
+  obtain ⟨g0, hg0, rfl⟩ := hg1
+  simp only [List.mem_filter, List.mem_append, List.mem_singleton, bne_iff_ne, ne_eq] at hb
+  obtain ⟨hb, _⟩ := hb
+  by_cases hk : (g0.pk == f.pk) = true
+  · -- the edited file: its blob is the new row, its file the new file
+    have hg0f : g0 = f := inj_of_nodup_map (·.pk) c.filePk hg0 hf (beq_iff_eq.mp hk)
+    subst hg0f
+    simp only [hk, if_true] at hxk hbk
+    have hxs : x = st := inj_of_nodup_map (·.pk) c.streamPk hx hstm (by rw [hxk, hstk])
+    subst hxs
+    rcases hb with hb | rfl
+    · exact absurd (List.mem_map.mpr ⟨b, hb, hbk⟩) hfr
+    · exact onDisk_writeDisk_same _ _ _ _
+  · -- any other file keeps its blob row and its file
+    simp only [hk, Bool.false_eq_true, if_false] at hxk hbk
+    apply onDisk_writeDisk_mono
+    rcases hb with hb | rfl
+    · exact hd g0 hg0 x hx hxk b hb hbk
+    · have hgb := c.fileBlob g0 hg0
+      simp only at hbk
+      rw [← hbk] at hgb
+      exact absurd hgb hfr
+
+theorem diskOK_editMedia {s : St} (hs : Inv s) (hd : DiskOK s) (spk mfid track : Nat) :
+    DiskOK (editMedia s spk mfid track).1 := by
+  unfold editMedia
+  split
+  · exact hd
+  · split
+    · exact hd
+    · next f hf =>
+      obtain ⟨hfm, _⟩ := findFile_mem hf
+      split
+      · exact hd
+      · split
+        · exact hd
+        · split
+          · exact hd
+          · next st b d hbd =>
+            obtain ⟨hstm, hstk⟩ := blobOnDisk_spec hbd
+            split
+            · exact hd
+            · simp only
+              split
+              · exact diskOK_disk hd _ _ _
+              · exact diskOK_editMediaApply hs hd hfm hstm hstk _ _
+
+/-- the Periods of a request touch neither streams, media files, blobs nor the disk -/
+theorem processPeriod_frame {s s' : St} {mpsPk : Nat} {sp : PSpec} {d : List Nat}
+    (h : processPeriod s mpsPk sp = some (s', d)) :
+    s'.streams = s.streams ∧ s'.files = s.files ∧ s'.blobs = s.blobs ∧ s'.disk = s.disk := by
+  unfold processPeriod at h
+  split at h
+  · simp at h
+  · split at h
+    · simp at h
+    · split at h
+      · simp at h
+      · split at h
+        · simp at h
+        · simp only [Option.some.injEq, Prod.mk.injEq] at h
+          obtain ⟨rfl, _⟩ := h
+          exact ⟨rfl, rfl, rfl, rfl⟩
+
+theorem processPeriods_frame (defer : Bool) (mpsPk : Nat) (ps : List PSpec) :
+    ∀ (s : St) (doomed : List Nat) (s' : St), processPeriods defer s mpsPk ps doomed = some s' →
+    s'.streams = s.streams ∧ s'.files = s.files ∧ s'.blobs = s.blobs ∧ s'.disk = s.disk := by
+  induction ps with
+  | nil =>
+    intro s doomed s' h
+    simp only [processPeriods, Option.some.injEq] at h
+    subst h
+    exact ⟨rfl, rfl, rfl, rfl⟩
+  | cons sp rest ih =>
+    intro s doomed s' h
+    unfold processPeriods at h
+    split at h
+    · simp at h
+    · next s1 d hpp =>
+      obtain ⟨a1, a2, a3, a4⟩ := processPeriod_frame hpp
+      split at h
+      · simp at h
+      · split at h
+        · obtain ⟨b1, b2, b3, b4⟩ := ih s1 _ s' h
+          exact ⟨b1.trans a1, b2.trans a2, b3.trans a3, b4.trans a4⟩
+        · obtain ⟨b1, b2, b3, b4⟩ := ih (dropAdps s1 d) _ s' h
+          exact ⟨b1.trans a1, b2.trans a2, b3.trans a3, b4.trans a4⟩
+
+theorem diskOK_of_frame {s s' : St} (hd : DiskOK s)
+    (h : s'.streams = s.streams ∧ s'.files = s.files ∧ s'.blobs = s.blobs ∧ s'.disk = s.disk) :
+    DiskOK s' := by
+  obtain ⟨h1, h2, h3, h4⟩ := h
+  intro f hf x hx hxk b hb hbk
+  rw [h4]
+  exact hd f (h2 ▸ hf) x (h1 ▸ hx) hxk b (h3 ▸ hb) hbk
+
+theorem diskOK_addMps {s : St} (hd : DiskOK s) (name title : String) (ps : List PSpec) :
+    DiskOK (addMps s name title ps).1 := by
+  unfold addMps
+  split
+  · exact hd
+  · simp only
+    split
+    · exact hd
+    · next s2 hp =>
+      obtain ⟨a1, a2, a3, a4⟩ := processPeriods_frame false _ ps _ [] s2 hp
+      exact diskOK_commit hd (diskOK_of_frame hd ⟨a1, a2, a3, a4⟩)
+
+theorem diskOK_editMps {s : St} (hd : DiskOK s) (urlName : String) (bodyPk : Option Nat) (name title : String)
+    (ps : List PSpec) : DiskOK (editMps s urlName bodyPk name title ps).1 := by
+  unfold editMps
+  split
+  · exact hd
+  · split
+    · exact hd
+    · simp only
+      split
+      · exact hd
+      · next s2 hp =>
+        obtain ⟨a1, a2, a3, a4⟩ := processPeriods_frame true _ ps _ [] s2 hp
+        exact diskOK_commit hd (diskOK_of_frame hd ⟨a1, a2, a3, a4⟩)
+
+theorem diskOK_step {s : St} (hs : Inv s) (hd : DiskOK s) (op : Op) : DiskOK (step s op).1 := by
+  cases op with
+  | addStream d t => exact diskOK_addStream hs hd d t
+  | editStream k d t r => exact diskOK_editStream hs hd k d t r
+  | delStream k => exact diskOK_delStream hd k
+  | upload k st su c => exact diskOK_upload hs hd k st su c
+  | index m => exact diskOK_index hd m
+  | editMedia k m t => exact diskOK_editMedia hs hd k m t
+  | delMedia k m => exact diskOK_delMedia hd k m
+  | addKey kid c =>
+    simp only [step, addKey]; split
+    · exact hd
+    · exact diskOK_keys hd _ _
+  | editKey k c =>
+    simp only [step, editKey]; split
+    · exact hd
+    · exact diskOK_keys hd _ _
+  | delKey k =>
+    simp only [step, delKey]; split
+    · exact hd
+    · exact diskOK_keys hd _ _
+  | addMps n t ps => exact diskOK_addMps hd n t ps
+  | editMps u b n t ps => exact diskOK_editMps hd u b n t ps
+  | delMps n =>
+    simp only [step, delMps]; split
+    · exact hd
+    · exact diskOK_of_frame hd ⟨rfl, rfl, rfl, rfl⟩
 
 /-! ### every operation -/
 
